@@ -209,6 +209,10 @@ Theorem fit_state_reviewed :
       (* `if isinstance(self.solver, str): self.solver = LanczosSVD()`: idempotent normalisation of the parameter
          'lanczos' to the solver it denotes; the solver is refitted as a whole before any of its attributes is read *)
       ("GSVD", "solver");
+      (* the same idiom in HITS.fit and PCA.fit since the repair c379c7c0 (finding D35: after set_params(solver='lanczos') the
+         attribute was a string and fit raised) *)
+      ("HITS", "solver");
+      ("PCA", "solver");
       ("SVD", "solver") ] /\
   all_stale_outputs =
     [ (* scratch gradients of the training loop: assigned by backward() in every epoch before optimizer.step reads them;
@@ -217,6 +221,8 @@ Theorem fit_state_reviewed :
       ("GNNClassifier", "derivative_weight");
       ("GNNClassifier", "log");            (* see above *)
       ("GSVD", "solver");                  (* see above: assigned only while it still is the string *)
+      ("HITS", "solver");
+      ("PCA", "solver");
       ("SVD", "solver") ] /\
   (* self.log += text in Log.print_log is the only access to log in the whole class: a diagnostic transcript *)
   fit_state_accumulators = [("Leiden", "log"); ("Louvain", "log")] /\
